@@ -27,10 +27,10 @@ def run(ctx):
                 "writer configuration (table / cross-reference stream / object streams, compression on and off, header version) x user and "
                 "owner password class (empty, ASCII, delimiters, Latin-1, CJK + astral, 40 characters) x permission pattern.  The library "
                 "writes each; EncTrace requires (chk_spec) that the independent reader finds a well-formed envelope, that both passwords "
-                "authenticate and give the same key, that a wrong password does not, that title, author (UTF-16) and page text are found "
+                "authenticate and give the same key, that a wrong password does not, that title, author (UTF-16), page text and a page-label prefix (a string under /P of an ordinary dictionary) are found "
                 "by decryption and occur nowhere in the clear, that /Perms matches /P; and (chk_lib) that the library reports the file "
                 "encrypted, refuses a wrong password, returns nothing readable while locked, unlocks with either password, reads title, "
-                "author and page text back, and reports the permissions written.  Non-trivial = every case; distinct by hash.")
+                "author, page text and the label prefix back, and reports the permissions written.  Non-trivial = every case; distinct by hash.")
     ctx.assumptions = ["MD5/SHA-2/AES/zlib are python hashlib / cryptography / zlib, not oxidizePdf code",
                        "the document content is a fixed title (ASCII), author (outside PDFDocEncoding, hence UTF-16BE) and one line of page text; the quantifier is over strength x configuration x passwords x permissions",
                        "for revisions 2-4 the independent reader is given the password bytes the library fed to the algorithms (UTF-8); the encoding question itself is C23's open finding and is checked against ISO in C06",
